@@ -267,12 +267,21 @@ def build_driver(profile="release"):
     _built[profile] = exe
     return exe
 
+def _die_with_parent():
+    # a driver busy in a long evaluation never looks at its standard input: make the kernel end it when the check ends
+    try:
+        import ctypes
+        ctypes.CDLL("libc.so.6", use_errno=True).prctl(1, 9)   # PR_SET_PDEATHSIG, SIGKILL
+    except Exception:
+        pass
+
 class Driver:
     def __init__(self, exe, timeout=20.0):
         self.exe, self.timeout = exe, timeout
         self.p = None
     def start(self):
-        self.p = subprocess.Popen([self.exe, "--verif-driver"], stdin=subprocess.PIPE, stdout=subprocess.PIPE, stderr=subprocess.DEVNULL, text=True, bufsize=1)
+        self.p = subprocess.Popen([self.exe, "--verif-driver"], stdin=subprocess.PIPE, stdout=subprocess.PIPE, stderr=subprocess.DEVNULL, text=True, bufsize=1,
+                                  preexec_fn=_die_with_parent)
     def stop(self):
         if self.p:
             try:
